@@ -73,7 +73,22 @@ def options(tier, seed):
                         if tier == "quick" and (B == 17 and (pref or nets)):
                             continue
                         out.append({"B": B, "prefixes": pref, "networks": nets, "reserved": rsv, "salt": salt})
+    # option values that overlap between features: a string listed both as sensitive word and as AS
+    # number, a sensitive word that is also a secret / a reserved addition / part of an address
+    for words, asns in ((["seattle", "65001", "12"], None), (["hunter", "65001"], ["65001", "64999"]),
+                        (["PlyRouter", "ply"], None), (["10", "seattle"], ["10", "12"])):
+        for rsv in (None, ["PlyRouter"]):
+            out.append({"B": 8, "prefixes": None, "networks": None, "reserved": rsv, "salt": salts[0],
+                        "words": words, "asns": asns})
     return out
+
+
+def _words(opt):
+    return list(opt.get("words") or WORDS)
+
+
+def _asns(opt):
+    return list(opt.get("asns") or ASNS)
 
 
 def fa(opt, pwd=False, ip=False, undo=False, word=False, asn=False):
@@ -82,8 +97,8 @@ def fa(opt, pwd=False, ip=False, undo=False, word=False, asn=False):
     with seams.capture_logs():
         return FileAnonymizer(
             anon_pwd=pwd, anon_ip=ip and not undo, salt=opt["salt"],
-            sensitive_words=list(WORDS) if word else None, undo_ip_anon=ip and undo,
-            as_numbers=list(ASNS) if asn else None,
+            sensitive_words=_words(opt) if word else None, undo_ip_anon=ip and undo,
+            as_numbers=_asns(opt) if asn else None,
             reserved_words=list(opt["reserved"]) if opt["reserved"] else None,
             preserve_prefixes=None if opt["prefixes"] is None else list(opt["prefixes"]),
             preserve_networks=None if opt["networks"] is None else list(opt["networks"]),
@@ -123,11 +138,11 @@ def stage_direct(kind, opt, text, state):
             for line in text.splitlines(True):
                 out.append(sir.replace_matching_item(rx, line, lookup, opt["salt"], reserved))
         elif kind == "word":
-            w = sir.SensitiveWordAnonymizer(list(WORDS), opt["salt"], reserved)
+            w = sir.SensitiveWordAnonymizer(_words(opt), opt["salt"], reserved)
             for line in text.splitlines(True):
                 out.append(w.anonymize(line))
         else:
-            a = sir.AsNumberAnonymizer(list(ASNS), opt["salt"])
+            a = sir.AsNumberAnonymizer(_asns(opt), opt["salt"])
             for line in text.splitlines(True):
                 out.append(sir.anonymize_as_numbers(a, line))
         return "".join(out)
